@@ -25,6 +25,8 @@ type corruption struct {
 
 // corruptions enumerates every single-token deletion, every statement-separator removal and every
 // truncation point inside a string, backtick string, bracket pair or block.
+var fuseGlues = []string{"\t", "\f", "\v", "\u00a0", "\ufeff", " \f ", "\v\t", "\f"}
+
 func corruptions(rd *gen.Rendered) []corruption {
 	var out []corruption
 	src := rd.Src
@@ -50,7 +52,13 @@ func corruptions(rd *gen.Rendered) []corruption {
 			out = append(out, corruption{tokCtx(toks, li) + " [;] " + tokCtx(toks, i), "fuse", src[:toks[li].End] + " " + src[t.Off:], fmt.Sprintf("separator before token #%d %q", i, t.Text), li})
 		} else if t.VSemi || t.NLBefore {
 			out = append(out, corruption{tokCtx(toks, li) + " [newline] " + tokCtx(toks, i), "fuse", src[:toks[li].End] + " " + src[t.Off:], fmt.Sprintf("separator before token #%d %q", i, t.Text), li})
+		} else {
+			continue
 		}
+		// ... and by another blank that is no line break for ECMAScript: tab, form feed, vertical tab, no-break space,
+		// U+FEFF, several of them
+		glue := fuseGlues[i%len(fuseGlues)]
+		out = append(out, corruption{tokCtx(toks, li) + " [separator -> other blank] " + tokCtx(toks, i), "fuse", src[:toks[li].End] + glue + src[t.Off:], fmt.Sprintf("separator before token #%d %q replaced by %q", i, t.Text, glue), li})
 	}
 	// truncations
 	depth := 0
@@ -59,6 +67,10 @@ func corruptions(rd *gen.Rendered) []corruption {
 		if t.Kind == gen.TStr || t.Kind == gen.TTpl {
 			for o := t.Off + 1; o < t.End; o++ {
 				out = append(out, corruption{"inside " + tokClass(&toks[i]), "truncate", src[:o], fmt.Sprintf("inside %s token #%d at offset %d", map[gen.TokKind]string{gen.TStr: "string", gen.TTpl: "backtick string"}[t.Kind], i, o), i - 1})
+				if o%2 == 0 {
+					// the cut text keeps a final line break (what an editor or a transfer leaves at the end of a file)
+					out = append(out, corruption{"inside " + tokClass(&toks[i]) + " + final line break", "truncate", src[:o] + []string{"\n", "\r\n"}[o/2%2], fmt.Sprintf("inside %s token #%d at offset %d, final line break kept", map[gen.TokKind]string{gen.TStr: "string", gen.TTpl: "backtick string"}[t.Kind], i, o), i - 1})
+				}
 			}
 		}
 		switch t.Text {
